@@ -57,11 +57,17 @@ def vec(f, *arrs):
 
 
 def isfloat(dt):
-    return np.issubdtype(dt, np.floating)
+    try:
+        return np.issubdtype(dt, np.floating)
+    except TypeError:  # extended dtypes (PRNG keys)
+        return False
 
 
 def iscomplex(dt):
-    return np.issubdtype(dt, np.complexfloating)
+    try:
+        return np.issubdtype(dt, np.complexfloating)
+    except TypeError:
+        return False
 
 
 def tf(x):
@@ -118,6 +124,7 @@ class FInterp:
         self.uf_apps = {}
         self.log_apps = []
         self.exact = False
+        self.uf_add = False  # sums of two symbolic doubles as an uninterpreted function with verified lemma instances (see add_lemmas)
 
     # ---- fresh values ------------------------------------------------------------------
     def havoc(self, aval, why, contract=None):
@@ -262,8 +269,16 @@ class FInterp:
             raise _Fallback()
         return vec(iop, ins[0], ins[1])
 
+    def fadd(self, a, b):
+        if self.exact or not self.uf_add or z3.is_fp_value(a) or z3.is_fp_value(b):
+            return z3.fpAdd(RM, a, b)
+        r = ADDF(a, b)
+        self.constraints.extend(add_lemmas(r, a, b).values())
+        self.uf_apps["add"] = self.uf_apps.get("add", 0) + 1
+        return r
+
     def p_add(self, e, ins, p):
-        return self._num2(e, ins, lambda a, b: z3.fpAdd(RM, a, b), lambda a, b: a + b)
+        return self._num2(e, ins, self.fadd, lambda a, b: a + b)
 
     p_add_any = p_add
 
@@ -352,6 +367,11 @@ class FInterp:
             v = z3.FP(f"hv{self.tag}_exp_{self.n_havoc}", F64)
             self.havoc_log["exp"] = self.havoc_log.get("exp", 0) + 1
             self.constraints.append(z3.If(z3.fpIsNaN(x), z3.fpIsNaN(v), z3.And(z3.Not(z3.fpIsNaN(v)), z3.fpGEQ(v, fv(0.0)))))
+            # libm facts (A3): exp(+-600) = 3.8e260 / 2.7e-261;  exp(+inf) = +inf;  exp(-inf) = +0
+            self.constraints.append(z3.Implies(z3.And(finite(x), z3.fpGEQ(x, fv(-600.0)), z3.fpLEQ(x, fv(600.0))),
+                                               z3.And(finite(v), z3.fpGEQ(v, fv(1e-261)), z3.fpLEQ(v, fv(1e261)))))
+            self.constraints.append(z3.Implies(z3.And(z3.fpIsInf(x), z3.fpIsPositive(x)), z3.And(z3.fpIsInf(v), z3.fpIsPositive(v))))
+            self.constraints.append(z3.Implies(z3.And(z3.fpIsInf(x), z3.fpIsNegative(x)), z3.fpIsZero(v)))
             return v
         return vec(f, ins[0])
 
@@ -492,7 +512,7 @@ class FInterp:
     def p_reduce_sum(self, e, ins, p):
         # sequential left fold; XLA may associate differently - the invariants checked (finiteness, sign, NaN) hold for any
         # association order only if they hold for this one AND no cancellation is involved: weights are >= 0 here.
-        return self._fold(e, ins, p, lambda a, b: z3.fpAdd(RM, a, b), lambda a, b: _ti(a) + _ti(b), fv(0.0))
+        return self._fold(e, ins, p, self.fadd, lambda a, b: _ti(a) + _ti(b), fv(0.0))
 
     def p_reduce_max(self, e, ins, p):
         def f(a, b):
@@ -588,7 +608,26 @@ def mul_lemmas(r, a, b):
                                   z3.And(finite(r), z3.fpLEQ(z3.fpAbs(r), fv(10000.0)))),
         "mul.lower": z3.Implies(z3.And(finite(a), finite(b), z3.fpGEQ(a, fv(1e-3)), z3.fpGEQ(b, fv(1e-300))), z3.fpGEQ(r, fv(1e-304))),
         "mul.lower2": z3.Implies(z3.And(finite(a), finite(b), z3.fpGEQ(b, fv(1e-3)), z3.fpGEQ(a, fv(1e-300))), z3.fpGEQ(r, fv(1e-304))),
+        "mul.lower3": z3.Implies(z3.And(finite(a), finite(b), z3.fpGEQ(a, fv(1e-8)), z3.fpGEQ(b, fv(1e-261))), z3.fpGEQ(r, fv(1e-270))),
+        "mul.lower4": z3.Implies(z3.And(finite(a), finite(b), z3.fpGEQ(b, fv(1e-8)), z3.fpGEQ(a, fv(1e-261))), z3.fpGEQ(r, fv(1e-270))),
+        "mul.inf": z3.Implies(z3.And(nn, z3.Or(z3.fpIsInf(a), z3.fpIsInf(b)), z3.Not(z3.fpIsZero(a)), z3.Not(z3.fpIsZero(b))), z3.fpIsInf(r)),
         "mul.zero_inf": z3.Implies(z3.Or(z3.And(z3.fpIsZero(a), z3.fpIsInf(b)), z3.And(z3.fpIsInf(a), z3.fpIsZero(b))), z3.fpIsNaN(r)),
+    }
+
+
+ADDF = z3.Function("addF", F64, F64, F64)
+
+
+def add_lemmas(r, a, b):
+    nn = z3.And(z3.Not(z3.fpIsNaN(a)), z3.Not(z3.fpIsNaN(b)))
+    pos = z3.And(nn, z3.fpGEQ(a, fv(0.0)), z3.fpGEQ(b, fv(0.0)))
+    return {
+        "add.nan": z3.Implies(z3.Or(z3.fpIsNaN(a), z3.fpIsNaN(b)), z3.fpIsNaN(r)),
+        "add.nonneg": z3.Implies(pos, z3.And(z3.Not(z3.fpIsNaN(r)), z3.fpGEQ(r, a), z3.fpGEQ(r, b))),
+        "add.zero": z3.Implies(z3.And(z3.fpIsZero(a), z3.fpIsZero(b)), z3.fpIsZero(r)),
+        "add.finite": z3.Implies(z3.And(finite(a), finite(b), z3.fpLEQ(z3.fpAbs(a), fv(1e300)), z3.fpLEQ(z3.fpAbs(b), fv(1e300))), finite(r)),
+        "add.le200": z3.Implies(z3.And(pos, z3.fpLEQ(a, fv(100.0)), z3.fpLEQ(b, fv(100.0))), z3.fpLEQ(r, fv(200.0))),
+        "add.inf": z3.Implies(z3.And(nn, z3.Or(z3.fpIsInf(a), z3.fpIsInf(b)), z3.Not(z3.And(z3.fpIsInf(a), z3.fpIsInf(b)))), z3.fpIsInf(r)),
     }
 
 
@@ -605,13 +644,28 @@ def div_lemmas(r, a, b):
 _LEMMAS_OK = {}
 
 
-def verify_lemmas(timeout_ms=120000):
-    """discharge every lemma against the exact IEEE operation (QF_FP, one multiplier / divider each); cached per process"""
+def verify_lemmas(timeout_ms=120000, parallel=0):
+    """discharge every lemma against the exact IEEE operation (QF_FP, one multiplier / divider / adder each); cached per process.
+    parallel > 0: the queries are written out as SMT-LIB and decided by that many concurrent cvc5 processes."""
     if _LEMMAS_OK:
         return _LEMMAS_OK
     import time
     a, b = z3.FP("la", F64), z3.FP("lb", F64)
-    for name, l in list(mul_lemmas(z3.fpMul(RM, a, b), a, b).items()) + list(div_lemmas(z3.fpDiv(RM, a, b), a, b).items()):
+    if parallel and have_cvc5():
+        import concurrent.futures as cf
+        items = (list(mul_lemmas(z3.fpMul(RM, a, b), a, b).items()) + list(div_lemmas(z3.fpDiv(RM, a, b), a, b).items())
+                 + list(add_lemmas(z3.fpAdd(RM, a, b), a, b).items()))
+        texts = [(name, smt2_text([z3.Not(l)]).replace("QF_UFFP", "QF_FP")) for name, l in items]
+
+        def one(t):
+            t0 = time.time()
+            return t[0], run_cvc5(t[1], timeout_ms), round(time.time() - t0, 2)
+        with cf.ThreadPoolExecutor(max_workers=parallel) as pool:
+            for name, r, secs in pool.map(one, texts):
+                _LEMMAS_OK[name] = (r, secs)
+        return _LEMMAS_OK
+    for name, l in (list(mul_lemmas(z3.fpMul(RM, a, b), a, b).items()) + list(div_lemmas(z3.fpDiv(RM, a, b), a, b).items())
+                    + list(add_lemmas(z3.fpAdd(RM, a, b), a, b).items())):
         s = z3.Solver()
         s.set("timeout", timeout_ms)
         s.add(z3.Not(l))
@@ -661,12 +715,67 @@ def fp_model_value(model, v):
     return None
 
 
-def check(asserts, timeout_ms=60000):
-    s = z3.SolverFor("QF_FP") if False else z3.Solver()
-    s.set("timeout", int(timeout_ms))
+import threading
+
+_SMT2_LOCK = threading.Lock()
+CVC5_BIN = "/usr/bin/cvc5"
+STATS = {"z3": 0, "cvc5": 0, "cvc5_s": 0.0}
+
+
+def smt2_text(asserts):
+    s = z3.Solver()
     s.add(*asserts)
-    r = str(s.check())
-    return r, (s.model() if r == "sat" else None)
+    return "(set-logic QF_UFFP)\n" + s.to_smt2().replace("(set-info :status unknown)", "")
+
+
+def run_cvc5(txt, timeout_ms):
+    """the cvc5 binary on an SMT-LIB text (thread-safe: no z3 objects involved); returns 'sat' | 'unsat' | 'unknown'"""
+    import os
+    import subprocess
+    import tempfile
+    import time
+    t0 = time.time()
+    with tempfile.NamedTemporaryFile("w", suffix=".smt2", delete=False, dir=os.environ.get("VERIF_SCRATCH") or None) as fh:
+        fh.write(txt)
+        path = fh.name
+    try:
+        out = subprocess.run([CVC5_BIN, "--fp-exp", f"--tlimit={int(timeout_ms)}", path], capture_output=True, text=True, timeout=timeout_ms / 1000.0 + 30)
+        lines = [ln.strip() for ln in out.stdout.splitlines() if ln.strip()]
+        verdict = lines[0] if lines else "unknown"
+        if "(error" in out.stdout or "error" in out.stderr.lower():
+            verdict = "unknown"
+    except Exception:
+        verdict = "unknown"
+    finally:
+        try:
+            os.unlink(path)
+        except OSError:
+            pass
+    STATS["cvc5"] += 1
+    STATS["cvc5_s"] += time.time() - t0
+    return verdict if verdict in ("sat", "unsat") else "unknown"
+
+
+def have_cvc5():
+    import os
+    return os.path.exists(CVC5_BIN) and not os.environ.get("VERIF_NO_CVC5")
+
+
+def check(asserts, timeout_ms=60000, z3_first_ms=8000):
+    """portfolio: z3 (in process, short budget), then the cvc5 binary on the same SMT-LIB text for the remaining budget.  Measured here:
+    mixed UF + FP queries on which z3 5.1 gives up after minutes are decided by cvc5 1.0.3 in seconds.  A `sat` from cvc5 carries no
+    model into Python (None): F-domain candidates are confirmed by hostile concrete inputs, not by the model."""
+    s = z3.Solver()
+    cv = have_cvc5()
+    budget = int(timeout_ms) if not cv else min(int(timeout_ms), int(z3_first_ms))
+    s.add(*asserts)
+    if budget > 0:
+        s.set("timeout", budget)
+        r = str(s.check())
+        if r != "unknown" or not cv:
+            STATS["z3"] += 1
+            return r, (s.model() if r == "sat" else None)
+    return run_cvc5(smt2_text(asserts), max(5000, int(timeout_ms) - budget)), None
 
 
 def fp_to_float(r):
